@@ -32,7 +32,7 @@ def cross(a, b, c):
     return (b[0] - a[0]) * (c[1] - a[1]) - (b[1] - a[1]) * (c[0] - a[0])
 
 
-def make_fn(poly, twin=False, fixed_tol=None):
+def make_fn(poly, twin=False, fixed_tol=None, closed=False):
     xs = [p[0] for p in poly]
     ys = [p[1] for p in poly]
 
@@ -64,7 +64,14 @@ def make_fn(poly, twin=False, fixed_tol=None):
             # counterexamples are preferred at least 0.05 away from the line of every edge (robust to the abstraction)
             cr = cross(a, b, p)
             e.prefer.append(z3.Or(lift(cr) >= 0.05 * lab, lift(cr) <= -0.05 * lab))
-        r = SH.point_polygon_check([tuple(v) for v in VF], p, on_edge_tolerance=tol)
+        ring = [tuple(v) for v in VF]
+        if closed:
+            # the same polygon given as a closed ring (first vertex repeated): the zero-length edge contributes 2 |p - v0|, which by the
+            # triangle inequality is at least the detour of either edge at v0 (lemma for the abstract distances)
+            ring = ring + [ring[0]]
+            d0 = sym_sqrt((VF[0][0] - p[0]) ** 2 + (VF[0][1] - p[1]) ** 2)
+            e.add(z3.And((2 * d0).t >= detours[0].t, (2 * d0).t >= detours[1 % n].t))
+        r = SH.point_polygon_check(ring, p, on_edge_tolerance=tol)
         if twin:
             return False
         on_edge = z3.Or([tobool(abs(d) < tol) for d in detours])
@@ -104,13 +111,14 @@ def exact_oracle(poly, px, py, tol):
     return (1 if cnt % 2 else -1), margin
 
 
-def make_replay(poly, fixed_tol=None):
+def make_replay(poly, fixed_tol=None, closed=False):
     def replay(model, notes):
         restore_shadows()
         from ghedesigner.shape import point_polygon_check
         px, py = float(model['px']), float(model['py'])
         tol = float(model['tol']) if fixed_tol is None else fixed_tol
-        got = point_polygon_check([tuple(map(float, v)) for v in poly], (px, py), on_edge_tolerance=tol)
+        ring = [tuple(map(float, v)) for v in poly]
+        got = point_polygon_check(ring + [ring[0]] if closed else ring, (px, py), on_edge_tolerance=tol)
         exp, margin = exact_oracle(poly, px, py, tol)
         if margin < 1e-11:
             return False, dict(note='within 1e-11 of the tolerance band (outside the claim)', got=got, expected=exp)
@@ -191,6 +199,12 @@ def units(tier, seed):
         us.append(Unit('hand_' + nm, make_fn(poly), make_replay(poly), setup, F,
                        'polygon %s (%d vertices) concrete; test point: all reals in the bounding box +-1.5; tolerance all reals in [1e-6, 0.1]' % (nm, len(poly)),
                        AS, ST, max_seconds=600))
+    for nm, poly in (HAND.items() if tier == 'thorough' else list(HAND.items())[:4]):
+        for start in ((0, 1) if tier == 'quick' else range(len(poly))):
+            pr = list(poly[start:]) + list(poly[:start])        # the ring may start at any vertex
+            us.append(Unit('closed_ring_%s_from%d' % (nm, start), make_fn(pr, closed=True), make_replay(pr, closed=True), setup, F,
+                           'polygon %s given as a closed ring starting at vertex %d (first vertex repeated at the end); test point and tolerance as above' % (nm, start),
+                           AS, ST + ['zero-length closing edge: 2|p - v0| >= detour of the edges at v0 (triangle inequality)'], max_seconds=600))
     tri = lattice_polygons(3)
     quad = lattice_polygons(4)
     if tier == 'quick':
@@ -199,6 +213,10 @@ def units(tier, seed):
         pent = lattice_polygons(5, size=3)
         sel = tri + quad + rnd.sample(pent, min(len(pent), 300))
     for k, poly in enumerate(sel):
+        if k % 4 == 0:
+            us.append(Unit('lattice_closed_%dv_%s' % (len(poly), '_'.join('%d%d' % p for p in poly)), make_fn(poly, fixed_tol=0.01, closed=True),
+                           make_replay(poly, fixed_tol=0.01, closed=True), setup, F,
+                           'simple lattice polygon with %d vertices given as a closed ring; test point all reals in the box +-1.5; tolerance 0.01' % len(poly), AS, ST, max_seconds=300))
         us.append(Unit('lattice_%dv_%s' % (len(poly), '_'.join('%d%d' % p for p in poly)), make_fn(poly, fixed_tol=0.01), make_replay(poly, fixed_tol=0.01),
                        setup, F, 'simple lattice polygon with %d vertices on the 4x4 lattice; test point all reals in the box +-1.5; tolerance 0.01' % len(poly),
                        AS, ST, max_seconds=300))
